@@ -20,6 +20,7 @@ struct Table {
 
 static T: Mutex<Option<Table>> = Mutex::new(None);
 static ZST_LIVE: AtomicI64 = AtomicI64::new(0);
+static ZGUARD_LIVE: AtomicI64 = AtomicI64::new(0);
 static ZST_CLONES: AtomicU64 = AtomicU64::new(0);
 static ZST_DROPS: AtomicU64 = AtomicU64::new(0);
 static PANIC_CLONE_AT: AtomicI64 = AtomicI64::new(-1);
@@ -34,6 +35,7 @@ fn with<R>(f: impl FnOnce(&mut Table) -> R) -> R {
 pub fn reset() {
     with(|t| *t = Table::default());
     ZST_LIVE.store(0, SeqCst);
+    ZGUARD_LIVE.store(0, SeqCst);
     ZST_CLONES.store(0, SeqCst);
     ZST_DROPS.store(0, SeqCst);
     PANIC_CLONE_AT.store(-1, SeqCst);
@@ -289,6 +291,27 @@ impl PartialEq for Zst {
 impl std::fmt::Debug for Zst {
     fn fmt(&self, f: &mut std::fmt::Formatter<'_>) -> std::fmt::Result {
         write!(f, "Zst")
+    }
+}
+
+/// A zero-sized guard with a destructor and no `Clone`: state captured by a registered closure
+/// that occupies no memory (a permit, a registration, a span guard).
+pub struct ZGuard;
+pub fn zguard_live() -> i64 {
+    ZGUARD_LIVE.load(SeqCst)
+}
+impl ZGuard {
+    pub fn new() -> Self {
+        ZGUARD_LIVE.fetch_add(1, SeqCst);
+        ZGuard
+    }
+}
+impl Drop for ZGuard {
+    fn drop(&mut self) {
+        sched::point("zguard.drop");
+        if ZGUARD_LIVE.fetch_sub(1, SeqCst) <= 0 {
+            viol::record("double-drop", "zero-sized state captured by a registered closure dropped more often than created");
+        }
     }
 }
 
